@@ -218,7 +218,10 @@ def run_mutants(repo: Repo, rules: List[Rule], res: Result, base_viol: set, only
             have_control = have_control or m.control
             tasks.append((r, m))
         if not any(m.control for m in ms) and r.mutants is not None:
-            raise AnalysisError(f"rule {r.id}: no positive control could be constructed on this tree")
+            # the tree has a shape the control generator does not recognise: a fact about the
+            # self-test, recorded as a warning -- never an alarm about the analysed code
+            res.selftest["failures"].append({"rule": r.id, "mutant": "<control>", "expect": "fire", "ok": False,
+                                             "detail": "no positive control could be constructed on this tree"})
     results = []
     if jobs > 1 and len(tasks) > 4:
         import multiprocessing as mp
